@@ -3,6 +3,7 @@ package main
 // C18 — every input is answered promptly with output or a located error, never a crash.
 
 import (
+	"strconv"
 	"encoding/json"
 	"fmt"
 	"go/token"
@@ -646,6 +647,10 @@ func c18c(c *Ctx) {
 					ok, how = true, "len(x) > 0 dominates x[1:]"
 				case lt == "" && ht != "" && hasLit(must, "+("+ht+" < "+lenX+")"):
 					ok, how = true, "i < len(x) dominates x[:i]"
+				case lt == "" && strings.HasPrefix(ht, "strings.Index("+xt+",") && hasLit(must, "-("+ht+" < 0)"):
+					ok, how = true, "0 <= strings.Index(x, s) < len(x) dominates x[:i]"
+				case ht == "" && strings.HasPrefix(lt, "strings.Index("+xt+`,"`) && strings.HasSuffix(lt, "+1") && hasLit(must, "-("+strings.TrimSuffix(lt, "+1")+" < 0)") && indexSepLen(lt) == 1:
+					ok, how = true, "strings.Index(x, one-byte separator) >= 0 dominates x[i+1:]"
 				}
 			}
 			key := fmt.Sprintf("%s/%s#%d", fk, kind, site)
@@ -1444,4 +1449,18 @@ func c18h(c *Ctx) {
 		}
 	}
 	c.Check(true, "return-pairs", "-", fmt.Sprintf("%d comparable return pairs", n), fmt.Sprintf("only %d comparable return pairs found", n))
+}
+
+// indexSepLen: the byte length of the constant separator in a term strings.Index(x,"sep")+k (-1 when not constant).
+func indexSepLen(t string) int {
+	i := strings.LastIndex(t, `,"`)
+	j := strings.LastIndex(t, `")`)
+	if i < 0 || j < i {
+		return -1
+	}
+	s, err := strconv.Unquote(t[i+1 : j+1])
+	if err != nil {
+		return -1
+	}
+	return len(s)
 }
